@@ -13,4 +13,4 @@ def main(ctx):
     dynamic_check(ctx, invalid=True, total=total, rule=RULE, modelled=MODELLED)
 
 
-MODELLED = False
+MODELLED = True
